@@ -16,12 +16,12 @@ from .common import mk
 
 PROPERTY = "C16"
 LEVEL = "model_checking"
-INSTANCE_BUDGET_S = {"quick": 90, "thorough": 900}
+INSTANCE_BUDGET_S = {"quick": 90, "thorough": 600}
 EXHAUSTIVE = {"quick": False, "thorough": False}
 BOUNDS = {
     "quick": dict(members="seeded 48 lists of 2..3 members over 7 member kinds (named), histories of length 3 (every order with repetition; 2 when the list has two VarInts)", stream="6 symbolic bytes",
                   access="by name, by index, by attribute, iteration (keys/values/items), slicing for LazyArray"),
-    "thorough": dict(members="lists of 2..4 members, seeded 200 lists of 5..6, histories of length 4", stream="10 symbolic bytes", access="as quick"),
+    "thorough": dict(members="400 seeded lists of 2..3 members over 9 kinds (histories of length 4), 120 lists of 4 (length 3), 60 lists of 5..6 (length 2)", stream="10 symbolic bytes (8 for >= 4 members)", access="as quick"),
 }
 OUTSIDE = ["Lazy(x) over a field whose size cannot be determined without parsing it (VarInt): raises SizeofError by design",
            "cross references between members of a LazyStruct (documented restriction)", "members whose size depends on _index", "negative indices into LazyListContainer"]
@@ -46,13 +46,23 @@ def instances(tier, seed):
         rnd.shuffle(lists)
         lists = sorted(lists[:48])
     else:
-        rnd.shuffle(lists)
-        lists = sorted(lists[:600])
-        for _ in range(200):
+        small = [l for l in lists if len(l) <= 3]
+        four = [l for l in lists if len(l) == 4]
+        rnd.shuffle(small)
+        rnd.shuffle(four)
+        lists = sorted(small[:400]) + sorted(four[:120])
+        for _ in range(60):
             lists.append([rnd.choice(kinds) for _ in range(rnd.choice([5, 6]))])
     H = 3 if tier == "quick" else 4
+
+    def hist(ml):
+        if ml.count("var") >= 2:
+            return 2
+        if tier == "quick":
+            return 3
+        return {2: 4, 3: 4, 4: 3}.get(len(ml), 2)          # |members|^H access histories per parse path
     for ml in lists:
-        out.append(dict(name="lazystruct %s" % ",".join(ml), params=dict(kind="struct", members=ml, H=H if ml.count("var") < 2 else 2, n=(6 if ml.count("prefix3") < 2 else 8) if tier == "quick" else 10), expect=["ok"]))
+        out.append(dict(name="lazystruct %s" % ",".join(ml), params=dict(kind="struct", members=ml, H=hist(ml), n=(6 if ml.count("prefix3") < 2 else 8) if tier == "quick" else (10 if len(ml) <= 3 else 8)), expect=["ok"]))
     for k in kinds:
         out.append(dict(name="lazyarray 3 x %s" % k, params=dict(kind="array", elem=k, count=3 if k not in ("var", "prefix3", "pre", "parr") else 2, H=H if k != "var" else 2, n=(6 if k != "prefix3" else 8) if tier == "quick" else 10), expect=["ok"]))
         if k != "var":          # Lazy needs a sizable field (VarInt: SizeofError at parse time, by design)
